@@ -343,26 +343,24 @@ theorem kktB_exact (v : Variant) (scale : Option ℝ) (B lam : ℝ) (alts : List
       (p.2 = 0 → isOutside p.1 = false ∧ dU v scale p.1 0 ≤ lam) := by
   unfold kktB at h
   simp only [Bool.and_eq_true, List.all_eq_true, le_real, ofNat_real_zero, abs_real, sub_real,
-    sum_real, mul_real, zero_mul, add_real, add_zero] at h
+    sum_real, zero_mul, add_zero] at h
   obtain ⟨⟨h1, h2⟩, h3⟩ := h
   refine ⟨?_, ?_⟩
   · have := abs_nonpos_iff.mp h2
     linarith
   · intro p hp
+    have h3p := h3 p hp
     refine ⟨h1 p hp, ?_, ?_⟩
     · intro hpos
-      have := h3 p hp
-      have hlt : Num.lt (0 : ℝ) p.2 = true := by simpa using hpos
-      simp only [ofNat_real_zero] at hlt
-      simp only [hlt, if_true, le_real, abs_real, sub_real] at this
-      have := abs_nonpos_iff.mp this
+      have hlt : Num.lt (0 : ℝ) p.2 = true := (lt_real 0 p.2).mpr hpos
+      rw [if_pos hlt] at h3p
+      have := abs_nonpos_iff.mp ((le_real _ _).mp h3p)
       linarith
     · intro hz
-      have := h3 p hp
-      have hlt : Num.lt (0 : ℝ) p.2 = false := by
-        rw [lt_real_false]; rw [hz]
-      simp only [ofNat_real_zero] at hlt
-      simp only [hlt, Bool.false_eq_true, if_false, Bool.and_eq_true, Bool.not_eq_true', le_real] at this
-      exact this
+      have hlt : ¬ (Num.lt (0 : ℝ) p.2 = true) := by
+        rw [lt_real, hz]; exact lt_irrefl 0
+      rw [if_neg hlt] at h3p
+      simp only [Bool.and_eq_true, Bool.not_eq_true', le_real] at h3p
+      exact h3p
 
 end Mdcev
